@@ -1,7 +1,7 @@
 """C15 — mem conversions: partial-output contracts and pairing structure (structural clauses D1–D3)."""
 import os, re
 from mirlib import *
-import r_effect, t_writeonly, r_surr, r_lookahead, factsbuild, scan, r_kernel, r_utf8store, r_dim
+import r_effect, t_writeonly, r_surr, r_lookahead, factsbuild, scan, r_kernel, r_utf8store, r_dim, r_utf8asm
 
 MANIFEST = {
     'category': 'other',
@@ -77,6 +77,7 @@ def run(rep, facts, tier):
         rep.floor('T-WRITEONLY.bodies', 'mem/utf_8/ascii bodies scanned', nb, 110, c)
         n = r_surr.run(rep, f, c, 'R-SURR', in_scope)
         rep.floor('R-SURR', 'surrogate tests in mem/utf_8', n, 12, c)
+        r_utf8asm.run(rep, f, c, scope=('mem::', 'utf_8::'), floor=9)
         n = r_lookahead.run(rep, f, c, 'R-LOOKAHEAD', in_scope)
         rep.floor('R-LOOKAHEAD', 'surrogate look-ahead sites in mem/utf_8', n, 2, c)
         scan.run_specs(rep, f, c, 'R-SCAN', ['mem::utf16_valid_up_to', 'utf_8::convert_utf8_to_utf16_up_to_invalid'])
